@@ -32,6 +32,7 @@ pub fn plan(quick: bool) -> Vec<Part> {
     }
     for k in BIG_K {
         v.push(Part::new("C06", "catalogue", k, Space { segs: vec![catalogue(k)] }));
+        v.push(Part::new("C06", "lifted", k, vcommon::families::lifted(k, !quick)));
     }
     v
 }
